@@ -17,7 +17,9 @@ RULE = ("BFS over canonical states = ordered tuple of members' signed costs; tra
         "alphabet (V3^2 x {F,T}: 18 symbols; {0,1}^3 x {T}: 8 symbols; thorough adds {0..3}^2, {0,1}^3 x {F,T}, V3^3) on a real Archive rebuilt from the state, for the Pareto "
         "comparator and two epsilon comparators, until no new state appears. Oracle on every transition: content == nd(state "
         "+ x), flag == inserted, one representative per cost vector, evicted/rejected dominated-or-equal. Two independent archives fed alternately (no shared state); offered individuals are not modified. Then every history "
-        "of length <=3/4 from an empty archive, and truncate over all feature assignments and sizes on every reachable state.")
+        "of length <=3/4 from an empty archive, and truncate over all feature assignments and sizes on every reachable state. Life cycle of ONE live archive: every sequence of 4 (3) operations from "
+        "{add x (9 symbols, entry points add/append/+= in rotation), extend / += a pair (4 pairs), a pair of individuals at one design point with different costs (3), truncate to 0/1/2, remove first/last/absent member} "
+        "against a plain-list reference after every step.")
 ASSUMPTIONS = ["archive behaviour depends on members only through their signed costs and order (Archive has no other state)",
                "markers as artap writes them; epsilons positive; alphabet differences exceed rounding error"]
 
@@ -176,6 +178,89 @@ def check_truncate(cname, state, feats, size, larger=True):
     return out
 
 
+LIFE_SYMS = [(a, b, True) for a in V3 for b in V3]
+LIFE_OPS = ([("add", x) for x in LIFE_SYMS] +
+            [("many", pair) for pair in (((0.0, 2.0, True), (2.0, 0.0, True)), ((1.0, 1.0, True), (0.0, 0.0, True)), ((2.0, 2.0, True), (2.0, 2.0, True)),
+                                         ((1.0, 2.0, True), (1.0, 0.0, True)))] +
+            [("samevec", pair) for pair in (((0.0, 2.0, True), (2.0, 0.0, True)), ((2.0, 2.0, True), (1.0, 1.0, True)), ((1.0, 1.0, True), (2.0, 2.0, True)))] +
+            [("truncate", k) for k in (0, 1, 2)] + [("remove", "first"), ("remove", "last"), ("remove", "absent")])
+
+
+def check_lifecycle(cname, ops):
+    """One live archive through its whole life cycle as the swarm algorithms use it: additions through every entry point
+    (add / append / extend / +=), truncation, removal. Transition-local oracle against a plain list."""
+    from artap.individual import Individual
+    ar = make_archive(cname)
+    ref = []               # the members, by identity, in order
+    out = []
+    serial = [0]
+
+    def mk(costs, vec=None):
+        serial[0] += 1
+        i = Individual([float(serial[0])] if vec is None else list(vec))    # distinct designs unless stated otherwise
+        i.costs_signed = list(costs)
+        i.features['crowding_distance'] = float(serial[0] % 7) + 0.01 * serial[0]
+        return i
+
+    def ref_add(x):
+        cx = tuple(x.costs_signed)
+        if any(ref_dominance(tuple(m.costs_signed), cx) == 1 or tuple(m.costs_signed) == cx for m in ref):
+            return False
+        ref[:] = [m for m in ref if ref_dominance(cx, tuple(m.costs_signed)) != 1]
+        ref.append(x)
+        return True
+    for step, (op, arg) in enumerate(ops):
+        desc = "%s archive, operations %r, step %d" % (cname, ops[:step + 1], step)
+        try:
+            if op == "add":
+                x = mk(arg)
+                how = (step + LIFE_SYMS.index(arg)) % 3
+                if how == 0:
+                    flag = ar.add(x)
+                elif how == 1:
+                    ar.append(x)
+                    flag = None
+                else:
+                    ar += x
+                    flag = None
+                exp = ref_add(x)
+                if flag is not None and bool(flag) != exp:
+                    out.append(("C04:life:add-flag:%s" % ("rejected-although-not-dominated" if exp else "accepted-although-dominated"),
+                                "add returned %r, reference %r; %s" % (flag, exp, desc)))
+            elif op in ("many", "samevec"):
+                xs = [mk(c, [0.5, 0.5] if op == "samevec" else None) for c in arg]   # samevec: one design point, different costs
+                if step % 2 == 0:
+                    ar += xs
+                else:
+                    ar.extend(xs)
+                for x in xs:
+                    ref_add(x)
+            elif op == "truncate":
+                ar.truncate(arg, 'crowding_distance')
+                ref[:] = sorted(ref, key=lambda m: -m.features['crowding_distance'])[:arg]
+            else:
+                if arg == "absent" or not ref:
+                    ok = ar.remove(mk((9.0, 9.0, True)))
+                    if ok:
+                        out.append(("C04:life:remove-absent", "remove of a design that is not a member returned True; " + desc))
+                else:
+                    m = ref[0] if arg == "first" else ref[-1]
+                    ok = ar.remove(m)
+                    ref.remove(m)
+                    if not ok:
+                        out.append(("C04:life:remove-member", "remove of a member returned False; " + desc))
+        except Exception as e:
+            out.append(("C04:life:exception:%s" % type(e).__name__, "raised %r; %s" % (e, desc)))
+            return out
+        got = list(ar)
+        if sorted(map(id, got)) != sorted(map(id, ref)) or len(ar) != len(ref):
+            gc, rc = [tuple(m.costs_signed) for m in got], [tuple(m.costs_signed) for m in ref]
+            kind = "lost-or-refused-a-nondominated-solution" if len(got) < len(ref) else ("kept-a-dominated-or-removed-solution" if len(got) > len(ref) else "wrong-members")
+            out.append(("C04:life:content:%s:after-%s" % (kind, op), "archive holds %r, reference %r; %s" % (gc, rc, desc)))
+            return out
+    return out
+
+
 def bfs(cname, aname, col):
     alpha = ALPHA[aname]
     seen = {()}
@@ -231,6 +316,16 @@ def _shard(shard, col: Collector):
                         for key, msg in check_truncate(cname, st, feats, size, larger):
                             col.violation(key, "truncate", msg, {"comparator": cname, "state": st, "feats": feats,
                                                                  "size": size, "larger": larger})
+    elif kind == "life":
+        _, cname, first, depth = shard
+        for rest in itertools.product(range(len(LIFE_OPS)), repeat=depth - 1):
+            ops = [LIFE_OPS[first]] + [LIFE_OPS[i] for i in rest]
+            col.case()
+            col.count("lifecycle_histories")
+            col.nontrivial(("life", cname, first, rest))
+            for key, msg in check_lifecycle(cname, ops):
+                col.violation(key, "life", msg, {"comparator": cname, "ops": ops})
+        col.sample({"kind": "life cycle of one archive", "comparator": cname, "operations": [list(map(str, LIFE_OPS[first])), "truncate 1", "add"], "depth": depth}, 1)
     elif kind == "default":
         # default archives in one process: histories over 2 objectives first, then over 3 (and, in another process, 3 then 1/2)
         order = shard[1]
@@ -279,6 +374,9 @@ def replay(sub, case):
         return check_two_archives(case["c1"], case["c2"], [t(x) for x in case["seq1"]], [t(x) for x in case["seq2"]])
     if sub == "hist":
         return check_history(case["comparator"], [t(s) for s in case["seq"]])
+    if sub == "life":
+        ops = [(op, (tuple(tuple(c) for c in arg) if op in ("many", "samevec") else (tuple(arg) if op == "add" else arg))) for op, arg in case["ops"]]
+        return check_lifecycle(case["comparator"], ops)
     if sub == "truncate":
         return check_truncate(case["comparator"], tuple(t(s) for s in case["state"]), [inf(f) for f in case["feats"]],
                               case["size"], case["larger"])
@@ -295,6 +393,9 @@ def run(tier, seed):
             for first in ALPHA[aname]:
                 for k in range(2, n + 1):
                     shards.append(("hist", cname, aname, k, first))
+    for cname in ("pareto", "eps01", "default"):
+        for first in range(len(LIFE_OPS)):
+            shards.append(("life", cname, first, 4 if (tier == "thorough" or cname == "pareto") else 3))
     shards += [("default", ("V3x2F", "B3")), ("default", ("B3", "V3x2F")), ("default", ("NEAR", "T3"))]
     for c1, c2 in (("pareto", "pareto"), ("pareto", "eps01"), ("eps01", "eps05"), ("eps05", "pareto")):
         for aname in ("V3x2F", "B3"):
